@@ -133,15 +133,25 @@ m("c05_arity_less_than", "C05", "arity check only rejects too many arguments",
   "src/exec/produce_val.rs", "if data.params.len() != f.args.len() {", "if data.params.len() < f.args.len() {")
 m("c05_scope_leak_on_return_in_if", "C05", "returning from inside an if skips the scope pop",
   "src/exec/exec_stmt.rs",
-  """        if condition {
-            self.visit_block(&i.then_block)?;
-        } else if""",
-  """        if condition {
-            self.visit_block(&i.then_block)?;
+  """            self.env.borrow_mut().push_scope();
+            self.visit_block(block)?;
+            self.env.borrow_mut().pop_scope();
+        }
+        Ok(())
+    }
+
+    fn visit_while""",
+  """            self.env.borrow_mut().push_scope();
+            self.visit_block(block)?;
             if self.control_flow_state.is_returning() {
                 return Ok(());
             }
-        } else if""")
+            self.env.borrow_mut().pop_scope();
+        }
+        Ok(())
+    }
+
+    fn visit_while""")
 m("c05_lookup_var_mut_skips_pronoun_update", "C05", "writing a variable no longer makes it the pronoun referent",
   "src/exec/environment.rs",
   """    pub fn lookup_var_mut(&mut self, name: &VariableName) -> Result<&mut Val, EnvironmentError> {
